@@ -23,7 +23,11 @@ inductive FieldClass
   | rng            -- freshly allocated, fresh randomness (new PRNG per shallow copy)
   | replaced       -- freshly supplied by the caller or recomputed (new key, new index map)
   | retyped        -- interface field now holding a value of another dynamic type (WithKey sk↔pk)
-  | nested         -- a nested object that is itself a shallow copy (fresh shell, shared read-only inside)
+  | nested         -- a nested object that is itself a shallow copy (fresh shell, shared read-only inside), or an
+                   -- object rebuilt by its constructor over the copy's own parts (dft / mod1 evaluators of a
+                   -- bootstrapping evaluator, a second `NewEvaluator` instance)
+  | nestedScratch  -- a nested object that is a fresh shell around scratch / PRNG state SHARED with the original's
+                   -- (a level view of a sampler inside a wrapper: ringqp.UniformSampler.AtLevel)
   | absent         -- nil in both
   | dropped        -- set in the original, nil in the copy (a defect for a copy constructor)
   | added
@@ -34,11 +38,11 @@ def FieldClass.observed : FieldClass → String
   | .config => "config" | .configChanged => "config-changed"
   | .sharedRO => "shared" | .sharedCache => "shared" | .sharedScratch => "shared"
   | .owned => "owned" | .rng => "fresh" | .replaced => "fresh" | .retyped => "retyped"
-  | .nested => "mixed" | .absent => "nil" | .dropped => "dropped" | .added => "added"
+  | .nested => "mixed" | .nestedScratch => "mixed" | .absent => "nil" | .dropped => "dropped" | .added => "added"
 
 /-- may the field be touched by two goroutines holding the original and the copy? -/
 def FieldClass.concurrentSafe : FieldClass → Bool
-  | .sharedCache => false | .sharedScratch => false | _ => true
+  | .sharedCache => false | .sharedScratch => false | .nestedScratch => false | _ => true
 
 /-- is the copy complete w.r.t. this field (nothing the original had is lost)? -/
 def FieldClass.complete : FieldClass → Bool
@@ -96,7 +100,43 @@ def table : List (String × Row) := [
   ("mpbgv.MaskedTransformProtocol.ShallowCopy", [("e2s", .nested), ("s2e", .nested), ("tmpMask", .owned), ("tmpMaskPerm", .owned), ("tmpPt", .owned)]),
   ("mpckks.EncToShareProtocol.ShallowCopy", [("KeySwitchProtocol", .nested), ("buff", .owned), ("maskBigint", .owned), ("params", .sharedRO), ("zero", .sharedRO)]),
   ("mpckks.ShareToEncProtocol.ShallowCopy", [("KeySwitchProtocol", .nested), ("params", .sharedRO), ("ssBigint", .owned), ("tmp", .owned), ("zero", .sharedRO)]),
-  ("mpckks.MaskedLinearTransformationProtocol.ShallowCopy", [("defaultScale", .sharedRO), ("e2s", .nested), ("encoder", .nested), ("mask", .owned), ("noise", .config), ("prec", .config), ("s2e", .nested)])
+  ("mpckks.MaskedLinearTransformationProtocol.ShallowCopy", [("defaultScale", .sharedRO), ("e2s", .nested), ("encoder", .nested), ("mask", .owned), ("noise", .config), ("prec", .config), ("s2e", .nested)]),
+  -- rows added for the circuits / ring-packing / blind-rotation / ringqp layers and the missing multiparty constructors.
+  -- Notes: (1) dft.Evaluator, mod1.Evaluator and blindrot.Evaluator have NO copy constructor: their rows describe the copy
+  -- idiom (`NewEvaluator` over a shallow copy of the ckks evaluator, resp. a second `NewEvaluator` instance); the promoted
+  -- `blindrot.Evaluator.ShallowCopy` is `rgsw.Evaluator.ShallowCopy` and returns an *rgsw.Evaluator.
+  -- (2) `mpckks.MaskedLinearTransformationProtocol.WithParams` does not carry `noise` over (multiparty/mpckks/transform.go:76-83,
+  -- finding C10/mpckks.MaskedLinearTransformationProtocol.WithParams/drops-noise; with fixes/C10-7 the class becomes `.config`);
+  -- `defaultScale` is recomputed from the new parameters (equal content when they are the old ones, as in the tie).
+  -- (3) `ringqp.UniformSampler.AtLevel` wraps level views of its two ring samplers: block buffers, read pointers and PRNG are
+  -- shared with the receiver, which its doc comment ("a shallow copy") does not say
+  -- (finding C10/ringqp.UniformSampler.AtLevel/shares-state-undocumented).
+  ("ring.GaussianSampler.AtLevel[montgomery]", [("baseSampler", .nested), ("montgomery", .config), ("randomBuffer", .sharedScratch), ("xe", .config)]),
+  ("ring.TernarySampler.AtLevel[P=1/3]", [("baseSampler", .nested), ("hw", .config), ("invDensity", .config), ("matrixProba", .config), ("matrixValues", .sharedRO), ("sample", .config)]),
+  ("ring.TernarySampler.AtLevel[H]", [("baseSampler", .nested), ("hw", .config), ("invDensity", .config), ("matrixProba", .config), ("matrixValues", .sharedRO), ("sample", .config)]),
+  ("ring.TernarySampler.AtLevel[montgomery]", [("baseSampler", .nested), ("hw", .config), ("invDensity", .config), ("matrixProba", .config), ("matrixValues", .sharedRO), ("sample", .config)]),
+  ("ringqp.Ring.AtLevel", [("RingP", .nested), ("RingQ", .nested)]),
+  ("ringqp.UniformSampler.AtLevel", [("samplerP", .nestedScratch), ("samplerQ", .nestedScratch)]),
+  ("ringqp.UniformSampler.WithPRNG", [("samplerP", .nested), ("samplerQ", .nested)]),
+  ("ring.Poly.CopyNew", [("Coeffs", .owned)]),
+  ("ringqp.Poly.CopyNew", [("P", .owned), ("Q", .owned)]),
+  ("rlwe.GadgetCiphertext.CopyNew", [("BaseTwoDecomposition", .config), ("Value", .owned)]),
+  ("rlwe.MetaData.CopyNew", [("CiphertextMetaData", .config), ("PlaintextMetaData", .owned)]),
+  ("rlwe.RingPackingEvaluator.ShallowCopy", [("Evaluators", .nested), ("RingPackingEvaluationKey", .sharedRO), ("XInvPow2NTT", .sharedRO), ("XPow2NTT", .sharedRO)]),
+  ("rlwe.RingPackingEvaluator.ShallowCopy/Evaluators", [("BasisExtender", .nested), ("Decomposer", .sharedRO), ("EvaluationKeySet", .absent), ("EvaluatorBuffers", .owned), ("automorphismIndex", .absent), ("params", .sharedRO)]),
+  ("blindrot.Evaluator.NewEvaluator[second-instance]", [("Evaluator", .nested), ("accumulator", .owned), ("galoisGenDiscreteLog", .owned), ("paramsBR", .sharedRO), ("paramsLWE", .sharedRO), ("poolMod2N", .owned)]),
+  ("blindrot.Evaluator.ShallowCopy[promoted:rgsw.Evaluator]", [("Evaluator", .nested)]),
+  ("mpbgv.RefreshProtocol.ShallowCopy", [("MaskedTransformProtocol", .nested)]),
+  ("mpckks.MaskedLinearTransformationProtocol.WithParams", [("defaultScale", .owned), ("e2s", .nested), ("encoder", .nested), ("mask", .owned), ("noise", .dropped), ("prec", .config), ("s2e", .nested)]),
+  ("mpckks.RefreshProtocol.ShallowCopy", [("MaskedLinearTransformationProtocol", .nested)]),
+  ("dft.Evaluator.NewEvaluator[over-ShallowCopy]", [("Evaluator", .nested), ("LTEvaluator", .nested), ("parameters", .sharedRO)]),
+  ("mod1.Evaluator.NewEvaluator[over-ShallowCopy]", [("Evaluator", .nested), ("Parameters", .sharedRO), ("PolynomialEvaluator", .nested)]),
+  ("bootstrapping.Evaluator.ShallowCopy", [("C2SDFTMatrix", .sharedRO), ("DFTEvaluator", .nested), ("DomainSwitcher", .absent), ("EvaluationKeys", .sharedRO), ("Evaluator", .nested), ("Mod1Evaluator", .nested), ("Mod1Parameters", .sharedRO), ("Parameters", .sharedRO), ("S2CDFTMatrix", .sharedRO), ("SkDebug", .absent), ("xPow2InvN1", .absent), ("xPow2InvN2", .sharedRO), ("xPow2N1", .absent), ("xPow2N2", .sharedRO)]),
+  ("bootstrapping.Evaluator.ShallowCopy/DFTEvaluator", [("Evaluator", .nested), ("LTEvaluator", .nested), ("parameters", .sharedRO)]),
+  ("bootstrapping.Evaluator.ShallowCopy/Mod1Evaluator", [("Evaluator", .nested), ("Parameters", .sharedRO), ("PolynomialEvaluator", .nested)]),
+  ("bootstrapping.Evaluator.ShallowCopy[SkDebug]", [("C2SDFTMatrix", .sharedRO), ("DFTEvaluator", .nested), ("DomainSwitcher", .absent), ("EvaluationKeys", .sharedRO), ("Evaluator", .nested), ("Mod1Evaluator", .nested), ("Mod1Parameters", .sharedRO), ("Parameters", .sharedRO), ("S2CDFTMatrix", .sharedRO), ("SkDebug", .sharedRO), ("xPow2InvN1", .absent), ("xPow2InvN2", .sharedRO), ("xPow2N1", .absent), ("xPow2N2", .sharedRO)]),
+  ("bootstrapping.Evaluator.ShallowCopy[N1<N2]", [("C2SDFTMatrix", .sharedRO), ("DFTEvaluator", .nested), ("DomainSwitcher", .absent), ("EvaluationKeys", .sharedRO), ("Evaluator", .nested), ("Mod1Evaluator", .nested), ("Mod1Parameters", .sharedRO), ("Parameters", .sharedRO), ("S2CDFTMatrix", .sharedRO), ("SkDebug", .absent), ("xPow2InvN1", .sharedRO), ("xPow2InvN2", .sharedRO), ("xPow2N1", .sharedRO), ("xPow2N2", .sharedRO)]),
+  ("bootstrapping.Evaluator.ShallowCopy[ConjugateInvariant]", [("C2SDFTMatrix", .sharedRO), ("DFTEvaluator", .nested), ("DomainSwitcher", .nested), ("EvaluationKeys", .sharedRO), ("Evaluator", .nested), ("Mod1Evaluator", .nested), ("Mod1Parameters", .sharedRO), ("Parameters", .sharedRO), ("S2CDFTMatrix", .sharedRO), ("SkDebug", .absent), ("xPow2InvN1", .sharedRO), ("xPow2InvN2", .sharedRO), ("xPow2N1", .sharedRO), ("xPow2N2", .sharedRO)])
 ]
 
 def lookup (name : String) : Option Row := (table.find? (·.1 == name)).map (·.2)
@@ -127,7 +167,7 @@ def copyField (c : FieldClass) (a fresh : Nat) (f : Field) : Field :=
   | .config => f
   | .configChanged => { f with val := 0 }
   | .sharedRO | .sharedCache | .sharedScratch => f
-  | .owned | .nested => { f with addr := a }
+  | .owned | .nested | .nestedScratch => { f with addr := a }
   | .rng | .replaced | .retyped | .added => { f with addr := a, val := fresh }
   | .absent => f
   | .dropped => { f with addr := 0, val := 0 }
